@@ -1783,3 +1783,118 @@ Proof.
     pose proof (li_hpos _ _ I). pose proof (chain_le _ _ _ (li_pend _ _ I)). lia.
   - apply P. eapply run_pubs_incl; [exact H2|]. rewrite E. now left.
 Qed.
+
+(* ------------------------------------------------------------------ C02: stored bytes = appended bytes *)
+Definition all_in (A : list batch) (s : state) : Prop :=
+  (forall b, In b (s_buf s) -> In b A) /\ (forall b, In b (s_fl s) -> In b A) /\
+  (forall k bs b, lookup k (s_seg s) = Some bs -> In b bs -> In b A).
+
+Lemma lookup_put_cases k k' v m bs : lookup k' (put k v m) = Some bs -> (k' = k /\ bs = v) \/ lookup k' m = Some bs.
+Proof.
+  intros H. destruct (Z.eq_dec k' k) as [->|N].
+  - rewrite lookup_put_same in H. inversion H. now left.
+  - rewrite lookup_put_other in H by assumption. now right.
+Qed.
+
+Lemma all_in_step A s e s' : all_in A s -> step s e = Some s' -> all_in (A ++ new_batch s e) s'.
+Proof.
+  intros (Hb & Hf & Hs) H.
+  assert (forall b, In b A -> In b (A ++ new_batch s e)) as Up by (intros; apply in_app_iff; now left).
+  destruct e; cbn [step] in H.
+  all: try (destruct (negb (s_live s)); [discriminate|]).
+  all: try (destruct (s_live s); [discriminate|]).
+  all: try (destruct (s_pcs s t) eqn:Pt; try discriminate).
+  - cbn [new_batch]. destruct (parse_hdr raw) as [[lod cnt]|]; [|inversion H; subst; rewrite app_nil_r; repeat split; auto].
+    assert (In (mkBatch (s_next s) lod cnt raw) (A ++ [mkBatch (s_next s) lod cnt raw])) as New by (apply in_app_iff; right; now left).
+    destruct (should_flush _ _ && _); inversion H; subst; cbn; repeat split; cbn.
+    all: try solve [intros bb [] | intros bb Hin; apply in_app_iff in Hin as [Hin|[Hin|[]]]; [apply in_app_iff; left; auto|subst bb; exact New] | intros; apply in_app_iff; left; eauto].
+  - cbn [new_batch]. rewrite app_nil_r. destruct (s_owner s); try discriminate.
+    destruct (s_buf s) eqn:Eb; [destruct (s_clast s)|]; inversion H; subst; cbn; repeat split; cbn; auto.
+    all: try (rewrite Eb; auto). intros bb [].
+  - cbn [new_batch]. rewrite app_nil_r. destruct sg; try discriminate. inversion H; subst; cbn; repeat split; cbn; auto.
+    intros k bs bb L Hin. destruct ok; [|eauto]. apply lookup_put_cases in L as [[-> ->]|L]; eauto.
+  - cbn [new_batch]. rewrite app_nil_r. destruct ix; try discriminate. inversion H; subst; cbn; repeat split; cbn; auto.
+  - cbn [new_batch]. rewrite app_nil_r. destruct sg; try discriminate. destruct ix; try discriminate.
+    inversion H; subst; cbn; repeat split; cbn; auto. intros bb [].
+  - cbn [new_batch]. rewrite app_nil_r.
+    assert (s_buf s' = s_fl s ++ s_buf s /\ s_fl s' = [] /\ s_seg s' = s_seg s) as (E1 & E2 & E3).
+    { destruct sg, ix; try discriminate; inversion H; subst; cbn; auto. }
+    repeat split; rewrite ?E1, ?E2, ?E3; auto.
+    + intros bb Hin. apply in_app_iff in Hin as [Hin|Hin]; auto.
+    + intros bb [].
+  - cbn [new_batch]. rewrite app_nil_r. inversion H; subst; cbn; repeat split; cbn; auto.
+  - cbn [new_batch]. rewrite app_nil_r. inversion H; subst; cbn; repeat split; cbn; auto.
+  - cbn [new_batch]. rewrite app_nil_r. inversion H; subst; cbn; repeat split; cbn; auto; intros bb [].
+  - cbn [new_batch]. rewrite app_nil_r. destruct (restore _ _ _); inversion H; subst; cbn; repeat split; cbn; auto; intros bb [].
+  - cbn [new_batch]. rewrite app_nil_r. inversion H; subst; repeat split; auto.
+Qed.
+
+Lemma all_in_run evs : forall A s s', all_in A s -> run s evs = Some s' -> all_in (A ++ appended s evs) s'.
+Proof.
+  induction evs as [|e evs IH]; intros A s s' HA H; cbn [run appended] in *.
+  - inversion H; subst. now rewrite app_nil_r.
+  - destruct (step s e) as [s1|] eqn:E; [|discriminate]. rewrite app_assoc.
+    apply IH; [|exact H]. eapply all_in_step; eauto.
+Qed.
+
+Lemma appended_parse evs : forall s b, In b (appended s evs) ->
+  parse_hdr (b_raw b) = Some (b_lod b, b_count b).
+Proof.
+  induction evs as [|e evs IH]; intros s b H; cbn [appended] in H; [contradiction|].
+  destruct (step s e) as [s1|]; [|contradiction]. apply in_app_iff in H as [H|H]; [|eauto].
+  destruct e; cbn [new_batch] in H; try contradiction.
+  destruct (parse_hdr raw) as [[lod cnt]|] eqn:P; [|contradiction]. destruct H as [<-|[]]. exact P.
+Qed.
+
+Lemma bytes_shape b : 8 <= zlen (b_raw b) ->
+  firstn 8 (b_bytes b) = be64 (b_base b) /\ skipn 8 (b_bytes b) = skipn 8 (b_raw b) /\
+  length (b_bytes b) = length (b_raw b).
+Proof.
+  intros L. split; [reflexivity|]. split; [reflexivity|].
+  unfold b_bytes, patch. rewrite app_length, skipn_length. unfold zlen in L. cbn [be64 length]. lia.
+Qed.
+
+(* every S3 segment body is the concatenation, in offset order, of accepted record sets'
+   bytes in which ONLY the first 8 bytes (base offset) were replaced: nothing dropped,
+   added or shifted, whatever the batchLength fields say *)
+Theorem stored_bytes_are_appended_bytes c evs s k bs :
+  run (init c) evs = Some s -> lookup k (s_seg s) = Some bs ->
+  seg_body bs = flat_map b_bytes bs /\ bs <> [] /\ chain k bs (last_off bs + 1) /\
+  Forall (fun b => In b (appended (init c) evs) /\
+                   firstn 8 (b_bytes b) = be64 (b_base b) /\
+                   skipn 8 (b_bytes b) = skipn 8 (b_raw b) /\
+                   length (b_bytes b) = length (b_raw b)) bs.
+Proof.
+  intros H L. split; [reflexivity|].
+  pose proof (reach_inv _ _ _ H) as I. unfold Inv in I.
+  assert (S3Inv (s_seg s) (s_idx s)) as S3 by (destruct (s_live s); [destruct I as (h & I); apply (li_s3 _ _ I)|apply (di_s3 _ I)]).
+  destruct (s3_wf _ _ S3 _ _ L) as (N & Ch & _). split; [exact N|]. split; [exact Ch|].
+  assert (all_in ([] ++ appended (init c) evs) s) as (_ & _ & As).
+  { apply all_in_run; [|exact H]. repeat split; cbn; intros; try contradiction; discriminate. }
+  cbn [app] in As. apply Forall_forall. intros b Hb. specialize (As _ _ _ L Hb). split; [exact As|].
+  apply bytes_shape. pose proof (appended_parse _ _ _ As) as P. unfold parse_hdr in P.
+  destruct (zlen (b_raw b) <? hdr_min) eqn:E; [discriminate|]. unfold hdr_min in E. lia.
+Qed.
+
+(* ------------------------------------------------------------------ C05: each open finding is reachable *)
+(* hw-callback-reorder: both callbacks come from commits (non-empty flushes); thread 0's
+   was overtaken by thread 1's and then lowers the store *)
+Theorem reorder_reachable :
+  match runG (init (mkCfg 0 0 0 1)) (fun _ => false) (removelast reorder_witness) with
+  | Some (s, ov) =>
+      ov 0%nat = true /\ (exists b, s_pcs s 0%nat = PCb FromFlush b 0) /\ s_store s = 2 /\
+      (exists s', step s (ECallback 0%nat true) = Some s' /\ s_store s' = 1)
+  | None => False
+  end.
+Proof. vm_compute. repeat split; eexists; try reflexivity. split; reflexivity. Qed.
+
+(* hw-empty-flush-publish-reorder: thread 1's callback was created by its EMPTY Flush
+   (EFlushBegin, buffer empty) with the then-current committed offset 1 *)
+Theorem empty_publish_reorder_reachable :
+  match runG (init (mkCfg 0 0 0 1)) (fun _ => false) (removelast empty_publish_witness) with
+  | Some (s, ov) =>
+      ov 1%nat = true /\ (exists b, s_pcs s 1%nat = PCb FromFlush b 1) /\ s_store s = 3 /\
+      (exists s', step s (ECallback 1%nat true) = Some s' /\ s_store s' = 2)
+  | None => False
+  end.
+Proof. vm_compute. repeat split; eexists; try reflexivity. split; reflexivity. Qed.
